@@ -256,6 +256,7 @@ pub fn par_map<U: Sync, F: Fn(&U) -> Report + Sync>(units: &[U], f: F) -> Vec<Re
                     if i >= n {
                         break;
                     }
+                    let t_unit = Instant::now();
                     let r = match catch_unwind(AssertUnwindSafe(|| f(&units[i]))) {
                         Ok(r) => r,
                         Err(_) => {
@@ -264,6 +265,9 @@ pub fn par_map<U: Sync, F: Fn(&U) -> Report + Sync>(units: &[U], f: F) -> Vec<Re
                             r
                         }
                     };
+                    if std::env::var_os("VERIF_UNIT_TIMES").is_some() && t_unit.elapsed().as_secs_f64() > 1.0 {
+                        eprintln!("[unit] {:.1}s {}", t_unit.elapsed().as_secs_f64(), r.unit);
+                    }
                     results.lock().unwrap()[i] = Some(r);
                 }
             });
